@@ -319,7 +319,10 @@ def tld_functions(ctx, rule):
         ctx.ob(rule, "%s/delegates-to-trie" % name, ok, "%s is not SUFFIX_TRIE.%s(url)" % (name, meth), tld.site(ref.node))
     ref = tld.func("refresh")
     src = unparse(ref.node)
-    ok = "tld_data.PUBLIC_SUFFIXES" in src and "tld_data.PRIVATE_SUFFIXES" in src and "tld_data.TLDS" in src and src.count("SUFFIX_TRIE.add(") == 2
+    names = set(n.attr for n in ast.walk(ref.node) if isinstance(n, ast.Attribute) and isinstance(n.value, ast.Name) and n.value.id == "tld_data")
+    adds = [c for c in ast.walk(ref.node) if isinstance(c, ast.Call) and isinstance(c.func, ast.Attribute) and isinstance(c.func.value, ast.Name)]
+    ok = {"PUBLIC_SUFFIXES", "PRIVATE_SUFFIXES", "TLDS"} <= names and any(c.func.value.id == "SUFFIX_TRIE" and c.func.attr == "add" for c in adds) \
+        and any(c.func.value.id == "TLD_SET" and c.func.attr in ("add", "update") for c in adds)
     ctx.ob(rule, "refresh/feeds-both-lists", ok, "tld.refresh does not feed PUBLIC_SUFFIXES, PRIVATE_SUFFIXES and TLDS into the trie / set", tld.site(ref.node))
 
 
